@@ -338,6 +338,8 @@ class Type1Tag(Tag):
 
         lines = list()
         data = self.read_all()
+        if len(data) < 122:
+            raise Type1TagCommandError(RESPONSE_ERROR)
         hrom, data = data[0:2], data[2:]
 
         lines.append("HR0={0:02X}h, HR1={1:02X}h".format(*hrom))
